@@ -18,7 +18,8 @@ static void evt_dtor(void *data) {
 evt_priv_t *new_evt(ev_src_t *src) {
     evt_priv_t *msg = m_mem_new(sizeof(evt_priv_t), evt_dtor);
     if (msg) {
-        msg->evt.type = src->type;
+        /* src is NULL for pubsub messages that do not come from a subscription (tell, broadcast) */
+        msg->evt.type = src ? src->type : M_SRC_TYPE_PS;
         msg->src = m_mem_ref(src);
     }
     return msg;
